@@ -809,6 +809,18 @@ func c11R4(p *Prog, r *Report) {
 		return
 	}
 	calls := callsIn(sf, false, func(o *types.Func) bool { return o.Name() == "CallMethod" })
+	callFn := sf
+	if len(calls) == 0 {
+		// the constructor path may live in a private helper of buildTargetVar
+		for _, rf := range p.Region("builder.buildTargetVar") {
+			if hf := p.SSAFunc(rf); hf != nil && hf != sf {
+				if cs := callsIn(hf, false, func(o *types.Func) bool { return o.Name() == "CallMethod" }); len(cs) > 0 {
+					calls = append(calls, cs...)
+					callFn = hf
+				}
+			}
+		}
+	}
 	if len(calls) != 1 {
 		r.Bad("builder.buildTargetVar/constructor call", p.PosStr(fi.Decl.Pos()), fmt.Sprintf("expected exactly one gen.CallMethod (the constructor), found %d", len(calls)))
 		return
@@ -905,7 +917,7 @@ func c11R4(p *Prog, r *Report) {
 	}
 	// UseConstructor = false before the call
 	var clr ssa.Instruction
-	allInstrs(sf, false, func(in ssa.Instruction) {
+	allInstrs(callFn, false, func(in ssa.Instruction) {
 		if st, ok := in.(*ssa.Store); ok {
 			if fa, ok := st.Addr.(*ssa.FieldAddr); ok && fieldName(fa) == "UseConstructor" {
 				if k, ok := st.Val.(*ssa.Const); ok && !constantBool(k) {
